@@ -2,12 +2,14 @@ package checks
 
 import (
 	"bytes"
+	"crypto/sha256"
 	"errors"
 	"fmt"
 	"io"
 	"math/big"
 
 	multiproof "github.com/crate-crypto/go-ipa"
+	"github.com/crate-crypto/go-ipa/common"
 	"github.com/crate-crypto/go-ipa/ipa"
 	"github.com/crate-crypto/go-ipa/zzverif/vsched"
 	"verif.local/engine/core"
@@ -184,6 +186,37 @@ func (c *profileReader) Read(p []byte) (int, error) {
 
 // failWriter fails once the stream reaches byte offset failAt (-1 = never), whatever the size of the
 // individual Write calls: with short=true the bytes up to the offset are accepted first (short write + error).
+// yieldReader delivers the stream in chunks and yields to the scheduler before every delivery (a reader
+// that may block: the natural scheduling points of a parser).
+type yieldReader struct {
+	data  []byte
+	pos   int
+	chunk int
+	tok   *vsched.Mutex // shared by the readers of one scenario: makes their deliveries mutually dependent, so that every interleaving of deliveries is explored
+}
+
+func (y *yieldReader) Read(p []byte) (int, error) {
+	if y.tok != nil {
+		y.tok.Lock()
+		y.tok.Unlock()
+	} else {
+		vsched.Yield()
+	}
+	if y.pos >= len(y.data) {
+		return 0, io.EOF
+	}
+	n := len(p)
+	if n > y.chunk {
+		n = y.chunk
+	}
+	if n > len(y.data)-y.pos {
+		n = len(y.data) - y.pos
+	}
+	copy(p, y.data[y.pos:y.pos+n])
+	y.pos += n
+	return n, nil
+}
+
 type failWriter struct {
 	calls  int
 	failAt int
@@ -409,6 +442,61 @@ func c10Units(ctx *core.Ctx) []core.Unit {
 			r.Note(fmt.Sprintf("outcomes_%d", fi), fmt.Sprint(st.Outcomes))
 		}})
 	}
+	us = append(us, core.Unit{Name: "two streams parsed concurrently through readers that yield at every call (all interleavings)", Run: func(ctx *core.Ctx, r *core.Result) {
+		if !vsched.Instrumented {
+			r.Note("seam", "unavailable (fallback flavour)")
+			return
+		}
+		needRef()
+		h0, h1 := honestProofBytes(ctx.Seed, 0), honestProofBytes(ctx.Seed, 1)
+		body := func() string {
+			var wg vsched.WaitGroup
+			var tok vsched.Mutex
+			outs := make([]string, 2)
+			for k, hb := range [][]byte{h0, h1} {
+				wg.Add(1)
+				vsched.Go2(func(k int, hb []byte) {
+					var p multiproof.MultiProof
+					err := p.Read(&yieldReader{data: hb, chunk: 288, tok: &tok})
+					var out bytes.Buffer
+					if err == nil {
+						err = p.Write(&out)
+					}
+					outs[k] = fmt.Sprintf("%v %x", err, sha256.Sum256(out.Bytes()))
+					wg.Done()
+				}, k, hb)
+			}
+			wg.Wait()
+			return outs[0] + " | " + outs[1]
+		}
+		want := fmt.Sprintf("<nil> %x | <nil> %x", sha256.Sum256(h0), sha256.Sum256(h1))
+		st := core.Explore(r, core.SchedSpec{Name: "MultiProof.Read x 2 through yielding readers", API: "MultiProof.Read", Check: "c10.concurrent_streams", Body: body, Expect: want, Mode: "bounded", Opt: explore.Options{MaxBound: 2, SchedOnly: true, MaxExecs: 20000, Deadline: schedDeadline(ctx)}})
+		r.Nontrivial += int64(st.Complete)
+		// the same for single fields, without bound
+		p0, p1 := h0[:32], h1[32:64]
+		body2 := func() string {
+			var wg vsched.WaitGroup
+			var tok vsched.Mutex
+			outs := make([]string, 2)
+			for k, b := range [][]byte{p0, p1} {
+				wg.Add(1)
+				vsched.Go2(func(k int, b []byte) {
+					e, err := common.ReadPoint(&yieldReader{data: b, chunk: 16, tok: &tok})
+					if err != nil {
+						outs[k] = err.Error()
+					} else {
+						eb := e.Bytes()
+						outs[k] = hx(eb[:])
+					}
+					wg.Done()
+				}, k, b)
+			}
+			wg.Wait()
+			return outs[0] + " | " + outs[1]
+		}
+		st = core.Explore(r, core.SchedSpec{Name: "common.ReadPoint x 2 through yielding readers", API: "common.ReadPoint", Check: "c10.concurrent_streams", Body: body2, Expect: hx(p0) + " | " + hx(p1), Mode: "dpor", Opt: explore.Options{DataBudget: 0, MaxExecs: 100000, Deadline: schedDeadline(ctx)}})
+		r.Nontrivial += int64(st.Complete)
+	}})
 	us = append(us, core.Unit{Name: "extreme profiles, error at every byte offset, failing writer at each call", Run: func(ctx *core.Ctx, r *core.Result) {
 		needRef()
 		honest := honestProofBytes(ctx.Seed, 0)
